@@ -172,14 +172,16 @@ func ruleC09(w *World, r *Report) {
 	}
 
 	// event
-	emits := fi.Calls(func(c *ssa.CallCommon) bool { return isEmit(c) })
+	// the emission may live in the function itself or in a same-package helper it calls
+	emits := k.deepCalls(fi, func(c *ssa.CallCommon) bool { return isEmit(c) }, 2)
 	good := 0
-	for _, e := range emits {
-		args := e.Common().Args
+	for _, dc := range emits {
+		args := dc.Call.Common().Args
 		if len(args) == 0 {
 			continue
 		}
-		t := fi.T.Of(args[len(args)-1])
+		e := dc.Outer
+		t := dc.Fi.T.Of(args[len(args)-1])
 		if t.Contains(`const("send_packet")`) {
 			missing := []string{}
 			for name, g := range map[string]string{"data": pk.data, "sequence": pk.seq, "port": pk.port, "source": pk.src, "dest": pk.dst, "relay": pk.relay} {
@@ -190,7 +192,7 @@ func ruleC09(w *World, r *Report) {
 			r.Check(len(missing) == 0, "C09.event/attrs", "BIND", fn, fi.InstrPos(e), "send_packet event carries data, sequence, port, source, dest, relay of the packet", "send_packet event lacks packet field(s): "+strings.Join(missing, ","))
 			good++
 			for _, s := range returnSites(fi, "") {
-				p := fi.PathAvoiding(s.Instr, func(in ssa.Instruction) bool { return in == ssa.Instruction(e) })
+				p := fi.PathAvoiding(s.Instr, func(in ssa.Instruction) bool { return in == e })
 				r.Check(p == nil, "C09.event/pass."+s.What, "MUST-PASS", fn, fi.InstrPos(s.Instr), "success passes the send_packet event", "success reachable without announcing the packet: "+fi.DescribePath(p))
 			}
 		}
